@@ -51,7 +51,10 @@ Record machine := mkMachine {
   m_state : Type;
   m_init : list N -> m_state;                      (* configuration -> initial state *)
   m_step : m_state -> list N -> m_state * obs;     (* encoded op *)
-  m_enabled : m_state -> list (list N)             (* contract-respecting alphabet for exploration *)
+  m_enabled : m_state -> list (list N);            (* contract-respecting alphabet for exploration *)
+  m_key : m_state -> m_state;                      (* erases ghost counters from the exploration key *)
+  (* property monitors over an observed trace (encoded op, observation) *)
+  m_monitor : N -> list N -> list (list N * obs) -> bool
 }.
 
 Fixpoint m_run (m : machine) (s : m_state m) (ops : list (list N)) : list obs :=
